@@ -6,6 +6,7 @@ translated from the Python `ast` statement by statement (fail closed).
                                                                        run_prepare_multi_wiring, run_prepare_mono_wiring
                               PandoraMachine.matching_cost_prepare  -> matching_cost_prepare
                               PandoraMachine.run_multiscale         -> run_multiscale
+  and coq/Gen/ScaleArithRange.v (entry point translator/gen_scale_arith_range.py, same module) from
     pandora/multiscale/fixed_zoom_pyramid.py
                               FixedZoomPyramid.disparity_range      -> range_offset, range_{min,max}_{init,window,invalid},
                                                                        range_zoom_skipped, range_{min,max}_zoom
@@ -39,8 +40,8 @@ the code applies to the arrays is pixel-wise), ints are Z, promoted with inject_
     of the store at the invalid indices and the zoom call are translated; their order is checked
     (init, window loop, invalid indices, zoom); every other mention of the two arrays is a TranslationError.
 
-The per-run obligations are in coq/Proofs/ScaleArithGenP.v (generated = hand-written model, for ALL
-inputs) and the theorems C15_gen_* / C08_gen_prepare_* are stated on the generated functions."""
+The per-run obligations are in coq/Proofs/ScaleArithGenP.v and coq/Proofs/ScaleArithRangeGenP.v (generated =
+hand-written model, for ALL inputs) and the theorems C15_gen_* / C08_gen_* are stated on the generated functions."""
 import ast
 import os
 import sys
@@ -888,24 +889,33 @@ Open Scope Z_scope.
 """
 
 
+def guarded(name, fn):
+    try:
+        fn()
+    except BaseException as exc:
+        # fail closed: no stale arithmetic from an earlier run may stay behind for the obligations to be checked
+        # against; an empty file makes every obligation (and what is built on them) fail to build
+        msg = f"{type(exc).__name__}: {exc}".replace("*)", "* )").replace("(*", "( *")
+        emit(name, f"(* TRANSLATION FAILED, nothing generated:\n   {msg}\n*)\n", [])
+        raise
+
+
 def translate():
     sm, src1, counts = translate_state_machine(os.path.join(REPO, "pandora", "state_machine.py"))
-    dr, src2 = translate_disparity_range(os.path.join(REPO, "pandora", "multiscale", "fixed_zoom_pyramid.py"))
-    text = HEADER + sm + dr
-    path, changed = emit("ScaleArith", text, src1 + src2)
+    path, changed = emit("ScaleArith", HEADER + sm, src1)
     print(f"gen_scale_arith: {path} {'rewritten' if changed else 'unchanged'} arithmetic statements translated: "
           f"run_prepare multi={counts[0]} mono={counts[1]}, matching_cost_prepare={counts[2]}, run_multiscale={counts[3]}")
 
 
+def translate_range():
+    dr, src2 = translate_disparity_range(os.path.join(REPO, "pandora", "multiscale", "fixed_zoom_pyramid.py"))
+    path, changed = emit("ScaleArithRange", HEADER + dr, src2)
+    print(f"gen_scale_arith_range: {path} {'rewritten' if changed else 'unchanged'} (disparity_range: offset, "
+          "initial / window / invalid-index values and zoom call of the two range maps)")
+
+
 def main():
-    try:
-        translate()
-    except BaseException as exc:
-        # fail closed: no stale arithmetic from an earlier run may stay behind for Proofs/ScaleArithGenP.v to be
-        # checked against; an empty file makes every obligation (and what is built on them) fail to build
-        msg = f"{type(exc).__name__}: {exc}".replace("*)", "* )").replace("(*", "( *")
-        emit("ScaleArith", f"(* TRANSLATION FAILED, nothing generated:\n   {msg}\n*)\n", [])
-        raise
+    guarded("ScaleArith", translate)
 
 
 if __name__ == "__main__":
